@@ -101,6 +101,14 @@ class Adapter:
     def pull_suffix(self, a, ctx):
         return ""
 
+    def no_candidate(self, a):
+        """True when the algorithm has nothing to recommend yet (get_last_point undefined)"""
+        return None
+
+    def outside(self, meta):
+        """reason why this configuration is outside C01's quantifier (or None)"""
+        return None
+
     def pull_line(self, t, calls, rlog, a, ctx):
         return f"A.pull {t} {draws_str(calls)}" + (self.pull_suffix(a, ctx) if a is not None else "")
 
@@ -191,6 +199,9 @@ def sw_str(with_b):
 class SOOAd(Adapter):
     name = "SOO"
 
+    def outside(self, meta):
+        return "depth cap smaller than the number of rounds" if meta["params"]["h_max"] < meta["T"] else None
+
     def gen_params(self, rnd, T):
         return {"n": rnd.choice([T, 100, 1000]), "h_max": rnd.choice([100, 100, 1000, T, 3, 5, 8])}
 
@@ -248,6 +259,9 @@ class StoSOOAd(Adapter):
     name = "StoSOO"
     time_sensitive = True
 
+    def outside(self, meta):
+        return "depth cap smaller than the number of rounds" if meta["params"]["h_max"] < meta["T"] else None
+
     def gen_params(self, rnd, T):
         p = {"n": rnd.choice([T, T, 2 * T, 1000]), "h_max": rnd.choice([100, 100, 1000, 4, 6])}
         if rnd.random() < 0.5:
@@ -284,6 +298,9 @@ def sq_str(nd):
 
 class SequOOLAd(Adapter):
     name = "SequOOL"
+
+    def no_candidate(self, a):
+        return len(a.chosen) == 0
 
     def gen_params(self, rnd, T):
         return {"n": rnd.choice([T, T, 2 * T, 1000, 10, 25])}
@@ -339,9 +356,12 @@ LEARNER_ADS = {"T_HOO": HOOAd(), "HCT": HCTAd(), "VHCT": VHCTAd()}
 class POOAd(Adapter):
     name = "POO"
 
+    def no_candidate(self, a):
+        return len(a.V_reward) == 0
+
     def gen_params(self, rnd, T):
         return {"base": rnd.choice(["T_HOO", "HCT", "VHCT"]), "numax": rnd.choice([1.0, 0.5, 2.0]),
-                "rhomax": rnd.choice([0.9, 0.85, 0.95, 0.99, 0.84]), "rounds": rnd.choice([T, 1000, 10 * T])}
+                "rhomax": rnd.choice([0.9, 0.85, 0.95, 0.99, 0.84, 0.9, 0.95, 0.8, 0.5]), "rounds": rnd.choice([T, 1000, 10 * T])}
 
     def construct(self, p, box, pcls):
         from PyXAB.algos.POO import POO
@@ -402,10 +422,13 @@ class GPOAd(Adapter):
     def gen_params(self, rnd, T):
         base = {"PCT": "HCT", "VPCT": "VHCT"}.get(self.wrapper) or rnd.choice(["T_HOO", "HCT", "VHCT"])
         return {"base": base, "numax": rnd.choice([1.0, 0.5, 2.0]),
-                "rhomax": rnd.choice([0.5, 0.6, 0.7, 0.75, 0.8, 0.4]), "rounds": rnd.choice([T, T, 100, 2 * T])}
+                "rhomax": rnd.choice([0.5, 0.6, 0.7, 0.75, 0.8, 0.4, 0.5, 0.6, 0.97]), "rounds": rnd.choice([T, T, 100, 2 * T])}
 
     def gpo(self, a):
         return a.algorithm if self.wrapper else a
+
+    def no_candidate(self, a):
+        return len(self.gpo(a).V_x) == 0
 
     def construct(self, p, box, pcls):
         self.log = {"created": [], "events": []}
@@ -611,6 +634,9 @@ class StroquOOLAd(Adapter):
     time_sensitive = True
     model = False
 
+    def no_candidate(self, a):
+        return not a.candidate
+
     def constrain(self, rnd, kind, K, d):
         # the code addresses children[0] and children[1] only: binary-child partitions
         if kind == "dimBinary":
@@ -665,6 +691,7 @@ def gen_algo_case(seed, idx, algo=None, force=None, monitors_on=True, T=None, ho
     n_queries = force.get("queries", rnd.choice([0, 0, 1, 3]))
     meta = {"gen": "algo", "algo": ad.name, "seed": seed, "idx": idx, "kind": kind, "K": K, "d": d, "box": box,
             "bmode": bmode, "T": T, "rmode": rmode, "qmode": qmode, "params": params, "t0": t0, "force": force}
+    meta["arity"] = {"binary": 2, "randBinary": 2, "dimBinary": 2 ** d}.get(kind, K)
     case = Case(f"algo-{ad.name}-{seed}-{idx}", meta)
     for k in ("kind", "d", "rmode", "qmode", "bmode"):
         case.tags[f"{k}={meta[k]}"] += 1
@@ -730,7 +757,8 @@ def gen_algo_case(seed, idx, algo=None, force=None, monitors_on=True, T=None, ho
                     case.tags["op=query"] += 1
                 except Exception as e:
                     case.op(ad.last_line(glog[mark:], rng.log[rmark:], a, ctx), "ERR " + exc_name(e))
-                    case.fail("C01", "get_last_point-exception", f"{type(e).__name__}: {e}", step=i, algo=ad.name, exc=type(e).__name__)
+                    case.fail("C01", "get_last_point-exception", f"{type(e).__name__}: {e}", step=i, algo=ad.name, exc=type(e).__name__,
+                              no_candidate=ad.no_candidate(a))
                     case.stopped = "query"
                     break
             mark, rmark = len(glog), len(rng.log)
@@ -784,7 +812,8 @@ def gen_algo_case(seed, idx, algo=None, force=None, monitors_on=True, T=None, ho
                     monitors.c01_point(case, box, q, "end", ad.name, what="get_last_point")
             except Exception as e:
                 case.op(ad.last_line(glog[mark:], rng.log[rmark:], a, ctx), "ERR " + exc_name(e))
-                case.fail("C01", "get_last_point-exception", f"{type(e).__name__}: {e}", step="end", algo=ad.name, exc=type(e).__name__)
+                case.fail("C01", "get_last_point-exception", f"{type(e).__name__}: {e}", step="end", algo=ad.name, exc=type(e).__name__,
+                          no_candidate=ad.no_candidate(a))
             if "at_end" in hooks:
                 hooks["at_end"](ctx)
         if user_box != box:
@@ -792,6 +821,12 @@ def gen_algo_case(seed, idx, algo=None, force=None, monitors_on=True, T=None, ho
     meta["n_nodes"] = sum(len(p_._all) for p_ in parts())
     if not getattr(ad, "model", True):
         case.ops = [("# " + l, None) for l, _e in case.ops]
+    why = ad.outside(meta)
+    if why:
+        meta["outside_quantifier"] = why
+        for f_ in case.monitor:
+            if f_["property"] == "C01":
+                f_["outside_quantifier"] = why
     case.trace = {"points": ctx["points"], "last": list(ctx["last"]) if ctx.get("last") is not None else None,
                   "rewards": ctx["rewards"], "stopped": case.stopped}
     meta["rounds_done"] = len(ctx["rewards"])
